@@ -382,6 +382,12 @@ def gen_op(rng, pool, in_bind, stats, multi_client, nrt=True):
                 for g in b['group']:
                     pool.bufs[g]['state'] = 'freed'
                 return op
+            if rng.random() < 0.08:
+                # the user's completion function raises: the free must not
+                # happen by halves (the buffer stays usable and owned)
+                op['completion'] = {'$fn': 'raise'}
+                stats['free_with_raising_completion'] = True
+                return op
             op['completion'] = completion(rng, pool)
             b['state'] = 'freed'
         elif m == 'alloc':
@@ -806,3 +812,26 @@ def gen_big_program(rng):
                  'exit_fault': None})
     prog.append({'op': 'node', 'm': 'trace', 'h': nodes[0]})
     return prog, stats
+
+
+def gen_stream_case(rng):
+    """A multi-chunk Buffer stream (send_list: /b_setn chunks of 1626 samples;
+    get_to_list: /b_getn requests of 1633) whose routine overlaps a bind()
+    block: started inside the block and continuing after it, started before
+    the block and continuing inside it, or started by a routine that keeps
+    its block open while it yields."""
+    kind = rng.choice(['send_list', 'send_list', 'get_to_list'])
+    chunk = 1626 if kind == 'send_list' else 1633
+    nchunks = rng.randint(3, 6)
+    n = chunk * (nchunks - 1) + rng.randint(1, chunk)
+    channels = rng.choice([1, 1, 2])
+    if kind == 'send_list':
+        n -= n % channels
+    start = rng.choice([0, 0, 7, 100])
+    return {'kind': kind, 'n': n, 'channels': channels, 'start': start,
+            'values_seed': rng.getrandbits(32),
+            'wait': rng.choice([0.02, 0.03, 0.05]),
+            'form': rng.choice(['start-inside', 'start-outside', 'routine-block',
+                                'no-block']),
+            'hold': rng.uniform(1.2, 2.6),
+            'clock': rng.choice(['system', 'system', 'app'])}
